@@ -8,6 +8,29 @@ pub const CORPUS_README: &str = include_str!("../../corpus/readme_exprs.txt");
 /// Expressions named in the property records and found while probing (deviations and their
 /// conforming neighbours).
 pub const CORPUS_EXTRA: &[&str] = &[
+    // Nothing but flags: the parse fails exactly at the end of the input (round 8, C17-I).
+    "(?i)",
+    "(?-i)",
+    "(?i)(?-i)",
+    "(?i-i)",
+    "金(?i)",
+    "a/(?-i)",
+    // A class that matches nothing (range written end first) in the invariant-prefix position
+    // (round 8, C08-I).
+    "v[9-0]/*.log",
+    "[z-a]/**",
+    "x/[b-a]/*.rs",
+    "[9-0]x/**/*",
+    // Invariant prefixes whose spelling is longer than their text, next to multi-byte text at the
+    // split point of a partition (round 8, C05-I).
+    "[a]/é/*.txt",
+    "{a}/é/*",
+    "{ab}/金/*",
+    "x[b]/éé/**",
+    "<a:2>/é/*",
+    "[a][b]/金金/*.rs",
+    "{a}{b}/é金/**/*",
+    "\\*/é/*",
     // Classes with a range written end first (they build and match nothing; round 7, C11-H).
     "[b-a]",
     "x[z-a]y",
@@ -684,6 +707,7 @@ pub fn component_repetition(rng: &mut Rng) -> String {
     const HEAD: &[&str] = &["", "", "", "src/", "a/", "**/", "x", "/", "{a,b}/", "**/", "a/**/"];
     const BNDS: &[&str] = &["", ":", ":0,", ":1,", ":2,", ":0,1", ":0,2", ":0,3", ":1,2", ":1,3", ":2,4", ":2", ":3", ":1", ":0,4"];
     let mut s = String::new();
+    let mut nested = false;
     s.push_str(rng.pick_str(HEAD));
     s.push('<');
     if rng.chance(1, 4) {
@@ -692,11 +716,26 @@ pub fn component_repetition(rng: &mut Rng) -> String {
         s.push_str(rng.pick_str(&["*/*/", "*/a/", "*/?/", "?/*/", "*/*/*/", "a/*/", "*/<?>/"]));
         s.push_str(rng.pick_str(&[":1,", ":2,", ":3,", ":1,", ""]));
     }
+    else if rng.chance(1, 5) {
+        // A bounded repetition of a bounded repetition of components (round 8, C09-I): the depth
+        // of the whole is a product of two ranges, zero lower counts included.
+        nested = true;
+        s.push('<');
+        s.push_str(rng.pick_str(&["*/", "*/", "?/", "a/", "*/*/", "[ab]*/", "?*/", "$/"]));
+        s.push_str(rng.pick_str(&[":1,2", ":0,2", ":2,3", ":1,3", ":2", ":0,1"]));
+        s.push('>');
+        s.push_str(rng.pick_str(&[":0,3", ":0,2", ":1,2", ":0,1", ":2,3", ":1,3", ":2", ":0,", ":0,4"]));
+    }
     else {
         s.push_str(rng.pick_str(BODY));
         s.push_str(rng.pick_str(BNDS));
     }
     s.push('>');
+    if nested && rng.chance(2, 3) {
+        // Mostly tails made of wildcards only: what the exhaustiveness scan lets pass.
+        s.push_str(rng.pick_str(&["*", "*", "**", "?*", "$", "*/**", "*?", "*/*"]));
+        return s;
+    }
     s.push_str(rng.pick_str(TAIL));
     if rng.chance(1, 5) {
         s.push('<');
@@ -823,7 +862,7 @@ pub fn root_position_shape(rng: &mut Rng) -> String {
         else {
             out.push('{');
             let n = rng.range(1, 3);
-            let unrooted_at = if rng.chance(1, 3) { rng.below(n) } else { usize::MAX };
+            let unrooted_at = if rng.chance(2, 5) { rng.below(n) } else { usize::MAX };
             for j in 0..n {
                 if j > 0 {
                     out.push(',');
@@ -833,6 +872,11 @@ pub fn root_position_shape(rng: &mut Rng) -> String {
                 }
                 else {
                     branch(rng, depth - 1, out);
+                    // A rooting branch followed by more tokens of the same alternative (round 8,
+                    // C12-I: the check looked at the last token of a multi-token alternative).
+                    if rng.chance(1, 3) {
+                        out.push_str(rng.pick_str(&["baz", "x", "/y", "*", "b/c", "{e,f}"]));
+                    }
                 }
             }
             out.push('}');
